@@ -116,6 +116,10 @@ type internalError struct {
 	origError         error
 }
 
+func (i *internalError) Unwrap() error {
+	return i.origError
+}
+
 func (i *internalError) Error() string {
 	sb := strings.Builder{}
 	sb.WriteString(string("[" + i.typ + "]\n"))
